@@ -2,6 +2,7 @@ package rules
 
 import (
 	"go/token"
+	"go/types"
 	"strings"
 
 	"golang.org/x/tools/go/ssa"
@@ -865,4 +866,108 @@ func ruleReverseOnEmptyPartitionEnds(c *eng.Ctx) {
 		}
 	}
 	c.Check(ok, "reverse subscription on a partition with nothing committed ends at once", p.Pos(fn.Pos()), "the reverse reader is created only behind HighWatermark() != -1", "a reverse subscription on a partition without committed messages creates a reverse reader anyway (path "+w.String()+"): the client gets an Unknown lookup error instead of ResourceExhausted `beginning of partition`")
+}
+
+// isCommitCheckSignal: a (non-blocking) send on the partition's commitCheck channel.
+func isCommitCheckSignal(in ssa.Instruction) bool {
+	ch := eng.LoadNamed("commitCheck", nil)
+	switch x := in.(type) {
+	case *ssa.Send:
+		return ch(x.Chan)
+	case *ssa.Select:
+		for _, st := range x.States {
+			if st.Dir == types.SendOnly && ch(st.Chan) {
+				return true
+			}
+		}
+	}
+	return false
+}
+
+// ruleOffsetProgressSignalsCommit (R04.2 extension, C04/C11): the commit loop recomputes the high watermark only when it is
+// signalled. Whoever moves a replica's latest offset forward (replica.updateLatestOffset answering true) therefore has to
+// signal commitCheck — the leader's own offset on becoming leader included: with the leader alone in the ISR nothing else
+// ever will, and a watermark recovered from a stale checkpoint stays behind acknowledged messages.
+func ruleOffsetProgressSignalsCommit(c *eng.Ctx) {
+	p := c.P
+	n := 0
+	for _, s := range eng.Index(p).Sites("server.replica.updateLatestOffset") {
+		call, isCall := s.Instr.(*ssa.Call)
+		if !isCall {
+			continue
+		}
+		fn := call.Parent()
+		n++
+		moved := eng.BoolEdges(fn, func(v ssa.Value) bool { return v == ssa.Value(call) }, true)
+		ok := len(moved) > 0
+		var w *eng.Witness
+		if ok {
+			q := &eng.PathQuery{Fn: fn, FromEdges: moved, Target: func(x ssa.Instruction) bool { _, isRet := x.(*ssa.Return); return isRet }, CutInstr: isCommitCheckSignal}
+			w = q.Find()
+			ok = w == nil
+		}
+		c.Check(ok, "offset progress recorded in "+ir.FuncKey(ir.Outermost(fn))+" signals the commit loop", c.Pos(call), "updateLatestOffset() == true → commitCheck signalled on every path", "a replica's latest offset moves forward here without the commit loop being told ("+w.String()+"): the high watermark is not recomputed until something else signals it — a leader that is alone in the ISR and recovered a stale watermark checkpoint serves reads (cursor fetches) from before acknowledged messages until the next publish")
+	}
+	if n < 2 {
+		c.Unresolved("call sites of replica.updateLatestOffset (2 on the reference tree)")
+	}
+}
+
+// ruleCompactionScansEndOnlyAtEOF (R08.1 extension, C08/C11): the compactor reads segments with a scanner; only io.EOF means
+// "segment read to its end". Any other scan error (the segment closed under it by Close / Truncate, an I/O error) must make
+// the compaction fail — a loop of the form `for …; err == nil; …` would take it for the end, and the compactor would replace
+// the segment by the prefix it managed to read, deleting the rest.
+func ruleCompactionScansEndOnlyAtEOF(c *eng.Ctx) {
+	n := 0
+	for _, name := range []string{"(*compactCleaner).compact", "(*compactCleaner).cleanSegment", "(*compactCleaner).scanSegments"} {
+		fn := c.Fn(cl + name)
+		if fn == nil {
+			continue
+		}
+		scans := eng.CallsIn(fn, cl+"segmentScanner.Scan")
+		if len(scans) > 0 {
+			n++
+		}
+		okAll, anyCuts := true, false
+		var bad *eng.Witness
+		var at ssa.Instruction
+		for _, sc := range scans {
+			at = sc.(ssa.Instruction)
+			errv := func(v ssa.Value) bool {
+				e, isE := v.(*ssa.Extract)
+				return isE && e.Tuple == sc.Value() && e.Index == 2
+			}
+			cuts := append(eng.CmpEdges(fn, errv, eng.Global("io.EOF"), eng.EQ), eng.CmpEdges(fn, errv, eng.NilConst, eng.EQ)...)
+			hasErrors := fn.Signature.Results().Len() > 0
+			q := &eng.PathQuery{Fn: fn, FromAfter: []ssa.Instruction{sc.(ssa.Instruction)}, Target: func(x ssa.Instruction) bool {
+				r, isRet := x.(*ssa.Return)
+				if !isRet {
+					return false
+				}
+				if !hasErrors {
+					return true
+				}
+				return eng.NilConst(r.Results[len(r.Results)-1])
+			}, CutEdges: cuts, CutInstr: func(x ssa.Instruction) bool {
+				if x == sc.(ssa.Instruction) {
+					return true
+				}
+				_, isSend := x.(*ssa.Send) // a worker reports the failure to its caller
+				return isSend && !hasErrors
+			}}
+			if len(cuts) > 0 {
+				anyCuts = true
+			}
+			if w := q.Find(); w != nil || len(cuts) == 0 {
+				okAll, bad = false, w
+			}
+		}
+		if at != nil {
+			w := bad
+			c.Check(okAll && anyCuts, "scan loop of "+ir.FuncKey(fn)+" ends normally only at io.EOF", c.Pos(at), "a Scan error other than io.EOF leaves the function with an error", "a scan that fails (segment closed by a concurrent Close, read error) is taken for the end of the segment ("+w.String()+"): the compactor goes on to replace the segment by what it read so far and the remaining messages — the latest cursor values among them — are deleted")
+		}
+	}
+	if n < 3 {
+		c.Unresolved("the compactor's three scan loops")
+	}
 }
